@@ -67,3 +67,27 @@ def exc_subclass(a, b):
             return True
         a = EXC_PARENT.get(a)
     return False
+
+
+def field_for(tag, attr):
+    """Mutable (heap-allocated) attribute `attr` of objects tagged `tag`: (heap key, result tag) or None.
+    FIELDS[attr] is (tagset|None, result_tag) or a list of (tagset, result_tag, heapkey)."""
+    e = FIELDS.get(attr)
+    if e is None:
+        return None
+    if isinstance(e, tuple):
+        e = [(e[0], e[1], attr)]
+    for tags, rt, key in e:
+        if tags is None or tag in tags:
+            return key, rt
+    return None
+
+
+def add_field(tags, attr, rtag, key=None):
+    e = FIELDS.get(attr)
+    if e is None:
+        e = []
+    elif isinstance(e, tuple):
+        e = [(e[0], e[1], attr)]
+    e.append((set(tags) if tags else None, rtag, key or attr))
+    FIELDS[attr] = e
